@@ -1,7 +1,7 @@
 /-
   C16 — pg_control fields and CRC verdict equal the stored control data.
   Property theorems only; helper lemmas are in Proofs/Crc.lean and Proofs/Control.lean.
-  The model is that of control.go with the repairs of /verif/fixes/control (01–04, 10) applied; the
+  The model is that of control.go with the repairs of /verif/fixes/control (01–04, 10, 22) applied; the
   `witness_*` theorems at the end show, on the model of the code as it was written, the defects those
   repairs remove.
   What "every reported field" means below: `Spec.ControlView` has 45 fields — 41 of the 51 members of ControlFileData
@@ -9,7 +9,7 @@
   redo WAL file name, CRC verdict).  The 10 stored members the tool does not report at all (time, unloggedLSN,
   minRecoveryPoint, minRecoveryPointTLI, backupStartPoint, backupEndPoint, backupEndRequired, the two pass-by-value
   bytes at 248/249, mock_authentication_nonce) are outside the property's list and outside the
-  theorems.  `pg_version_major` is a 46th reported field, inferred from the two version numbers: `C16_version_major*`.
+  theorems.  `pg_version_major` is a 46th reported field, inferred from the two version numbers: `C16_version_*`.
 -/
 import PgVerif.Proofs.Control
 import PgVerif.Proofs.ControlTotal
@@ -128,9 +128,9 @@ set_option maxRecDepth 100000 in
 theorem C16_names_version_graph :
     ∀ p ∈ Generated.Control.inferPGVersionGraph, Model.inferPGVersion p.1.1 p.1.2 = p.2 := by decide +kernel
 
-/-- Major version (REVIEW B12; fixes/control/10).  For every pair (PG_CONTROL_VERSION, CATALOG_VERSION_NO) a released
-PostgreSQL 12, 13, 14, 15 or 16 writes (`Spec.pgReleases`: 1201/201909212, 1300/202007201, 1300/202107181,
-1300/202209061, 1300/202307071) inferPGVersion answers that major version. -/
+/-- Major version (REVIEW B12; fixes/control/10, 22).  For every pair (PG_CONTROL_VERSION, CATALOG_VERSION_NO) a released
+PostgreSQL 12, 13, 14, 15, 16 or 17 writes (`Spec.pgReleases`: 1201/201909212, 1300/202007201, 1300/202107181,
+1300/202209061, 1300/202307071, 1700/202406281) inferPGVersion answers that major version. -/
 theorem C16_version_major (cv cat M : Nat) (h : pgMajorOf cv cat = some M) : Model.inferPGVersion cv cat = M := by
   unfold pgMajorOf at h
   cases hf : pgReleases.find? (fun r => r.2.1 == cv && r.2.2 == cat) with
@@ -143,7 +143,7 @@ theorem C16_version_major (cv cat M : Nat) (h : pgMajorOf cv cat = some M) : Mod
     obtain ⟨h1, h2⟩ := hp
     subst h h1 h2
     simp only [pgReleases, List.mem_cons, List.not_mem_nil, or_false] at hm
-    rcases hm with rfl | rfl | rfl | rfl | rfl <;> decide
+    rcases hm with rfl | rfl | rfl | rfl | rfl | rfl <;> decide
 
 /-- … and so does ParseControlFile (`pg_version_major` of the report) on every well-formed image carrying such a pair,
 whatever the other fields, the stored crc and the padding are. -/
@@ -156,15 +156,71 @@ theorem C16_version_major_file (c : ControlData) (h : c.WF) (crc pad : Nat) (hcr
 /-- non-vacuity: the typical control data is a PostgreSQL 16 one -/
 example : pgMajorOf Gen.typicalControl.pgControlVersion Gen.typicalControl.catalogVersionNo = some 16 := by decide
 
-/-- Between the release values the answer is the tool's choice (the Spec is silent): every catalog version from a
-release's value up to the next release's is reported as that release, for every control version ≥ 1201. -/
-theorem C16_version_bands (cv cat : Nat) (hcv : cv ≥ 1201) :
-    Model.inferPGVersion cv cat =
-      if cat ≥ 202307071 then 16 else if cat ≥ 202209061 then 15 else if cat ≥ 202107181 then 14
-      else if cat ≥ 202007201 then 13 else 12 := by
-  unfold Model.inferPGVersion; rw [if_pos hcv]
+/-- Known releases only (fixes/control/22), for EVERY pair of 32-bit (or any) numbers: when the catalog version is the
+one of a released major 12–17 the answer is that major (whatever the control version: the catalog version decides);
+for every other catalog version the answer is below 12 — never the name of a release of this table — and it is
+0 = unknown under every control version ≥ 1201 (PostgreSQL 12 and later). -/
+theorem C16_version_bands (cv cat : Nat) :
+    (∀ M, pgMajorOfCatalog cat = some M → Model.inferPGVersion cv cat = M) ∧
+    (pgMajorOfCatalog cat = none → Model.inferPGVersion cv cat < 12 ∧ (cv ≥ 1201 → Model.inferPGVersion cv cat = 0)) :=
+  ⟨fun M h => inferPGVersion_of_catalog cv cat M h, fun h => inferPGVersion_unknown cv cat h⟩
+
+example : pgMajorOfCatalog 202406281 = some 17 ∧ pgMajorOfCatalog 202406280 = none := by decide
+
+/-- A reported major of 12 or more is never wrong: it is reported only for the catalog version of that release.
+(The bands of fixes/control/10 reported 12..16 for 2^32 − 5 catalog versions no release carries: `witness_R22`.) -/
+theorem C16_version_never_wrong (cv cat M : Nat) (h : Model.inferPGVersion cv cat = M) (hM : M ≥ 12) :
+    pgMajorOfCatalog cat = some M := by
+  cases hc : pgMajorOfCatalog cat with
+  | some M' => rw [← h, inferPGVersion_of_catalog cv cat M' hc]
+  | none => have := (inferPGVersion_unknown cv cat hc).1; omega
+
+example : Model.inferPGVersion 1300 202209061 = 15 ∧ 15 ≥ 12 := by decide
+
+/-- The report is the Spec's (`Spec.majorReport`): wherever the Spec speaks — a released pair → its major; control
+version ≥ 1201 with a catalog version of no release → 0 — inferPGVersion answers exactly that. -/
+theorem C16_version_report (cv cat M : Nat) (h : majorReport cv cat = some M) : Model.inferPGVersion cv cat = M := by
+  unfold majorReport at h
+  cases hp : pgMajorOf cv cat with
+  | some M' =>
+    simp only [hp, Option.some.injEq] at h
+    subst h; exact C16_version_major cv cat M' hp
+  | none =>
+    simp only [hp] at h
+    cases hc : pgMajorOfCatalog cat with
+    | some M' => simp [hc] at h
+    | none =>
+      simp only [hc] at h
+      by_cases hcv : cv ≥ 1201
+      · rw [if_pos hcv] at h
+        injection h with h
+        rw [← h]; exact (inferPGVersion_unknown cv cat hc).2 hcv
+      · rw [if_neg hcv] at h; cases h
+
+/-- … and so does ParseControlFile on every well-formed image, whatever the other fields, the crc and the padding. -/
+theorem C16_version_report_file (c : ControlData) (h : c.WF) (crc pad : Nat) (hcrc : crc < 2 ^ 32) (M : Nat)
+    (hM : majorReport c.pgControlVersion c.catalogVersionNo = some M) :
+    ∃ f, Model.parseControlFile (encControl c crc pad) = .ok (some f) ∧ f.pgVersionMajor = M := by
+  obtain ⟨f, h1, _, h3⟩ := parseControlFile_enc_full c h crc pad hcrc
+  exact ⟨f, h1, by rw [h3]; exact C16_version_report _ _ _ hM⟩
+
+/-- non-vacuity: a PostgreSQL 16 control file whose catalog version is a development snapshot's → unknown -/
+example : ({ Gen.typicalControl with catalogVersionNo := 202307072 } : ControlData).WF ∧
+    majorReport 1300 202307072 = some 0 := by decide
 
 /-! ### the defects the repairs remove, on the model of the code as written (Model.Orig) -/
+
+/-- R22 (fixes/control/22): the bands of fixes/control/10 named a release for pairs no release writes — (1201, 0) and
+(1300, 0) → 12, PostgreSQL 17's own numbers (1700, 202406281) and (1300, 202406281) → 16, (1800, 202506291) → 16 — where the
+Spec says 17 for the PostgreSQL 17 pair and 0 = unknown for the others; the repaired code answers the Spec's. -/
+theorem witness_R22 :
+    Model.Orig.inferPGVersionBands 1201 0 = 12 ∧ Model.Orig.inferPGVersionBands 1300 0 = 12 ∧
+    Model.Orig.inferPGVersionBands 1700 202406281 = 16 ∧ Model.Orig.inferPGVersionBands 1300 202406281 = 16 ∧
+    Model.Orig.inferPGVersionBands 1800 202506291 = 16 ∧
+    majorReport 1201 0 = some 0 ∧ majorReport 1300 0 = some 0 ∧ majorReport 1700 202406281 = some 17 ∧
+    majorReport 1800 202506291 = some 0 ∧
+    Model.inferPGVersion 1201 0 = 0 ∧ Model.inferPGVersion 1300 0 = 0 ∧ Model.inferPGVersion 1700 202406281 = 17 ∧
+    Model.inferPGVersion 1300 202406281 = 17 ∧ Model.inferPGVersion 1800 202506291 = 0 := by decide
 
 /-- B12: as written, genuine PostgreSQL 12, 13 and 14 control files were reported as 13, 15 and 15 -/
 theorem witness_B12 : Model.Orig.inferPGVersion 1201 201909212 = 13 ∧ Model.Orig.inferPGVersion 1300 202007201 = 15 ∧
